@@ -33,7 +33,8 @@ from engines import history, optsim
 
 ENGINE = 'tolsim'
 FEATS = ['conic', 'asphere', 'poly', 'tilt', 'decenter', 'glass', 'abbe',
-         'finite_obj', 'multi_wl', 'planes', 'stop_any', 'aperture', 'mirror']
+         'finite_obj', 'multi_wl', 'planes', 'stop_any', 'aperture', 'mirror',
+         'shared_material']
 
 
 class Violation(Exception):
@@ -90,11 +91,16 @@ def mk_sampler(s):
 class Program:
     """One construction of the whole tolerancing set-up on a fresh lens."""
 
-    def __init__(self, hist, stats, with_samplers=True):
+    def __init__(self, hist, stats, with_samplers=True, share=True):
         from optiland.tolerancing import Tolerancing
         self.hist = hist
         self.stats = stats
         w = history.World('C15', {})
+        if not share:
+            # reference side: an equal prescription in which no two surfaces
+            # hold the same material object ("a fresh copy of the nominal
+            # lens")
+            w.matcache = None
         try:
             for op in hist['build']:
                 w.step(op)
@@ -296,7 +302,7 @@ class Sim:
         is not re-run (its discrete decisions may flip on the round-off the
         edit history leaves in the positions); the compensator values the
         row records are applied instead."""
-        R = Program(self.hist, self.stats, with_samplers=False)
+        R = Program(self.hist, self.stats, with_samplers=False, share=False)
         with simopt.patched(R.driver(trial_seed)), quiet(), \
                 warnings.catch_warnings():
             warnings.simplefilter('ignore')
@@ -390,7 +396,8 @@ class Sim:
                                  v == spec['nominal'])
                    for v, spec in zip(values, specs)) and not P.cspecs:
                 if nominal_vals is None:
-                    N = Program(self.hist, self.stats, with_samplers=False)
+                    N = Program(self.hist, self.stats, with_samplers=False,
+                                share=False)
                     with quiet(), warnings.catch_warnings():
                         warnings.simplefilter('ignore')
                         nominal_vals = [float(v) for v in N.tol.evaluate()]
@@ -469,6 +476,12 @@ SPAN = {'radius': 0.02, 'thickness': 0.05, 'conic': 0.05, 'index': 0.002,
         'tilt': 0.003, 'decenter': 0.05}
 
 
+def _seed(ch):
+    """small seeds (0 and 1 are seeds like any other) and large ones"""
+    return ch.pick([0, 1, 2, ch.randint(0, 9999), ch.randint(0, 2 ** 31 - 1)],
+                   tag='sseed')
+
+
 def gen_perturbation(ch, m, mode, harsh):
     spec = optsim.gen_variable(ch, m)
     if spec is None or spec['type'] == 'chebyshev_coeff':
@@ -504,10 +517,10 @@ def gen_perturbation(ch, m, mode, harsh):
                                'end': r(nom + span * ch.uniform(0.2, 1), 8),
                                'steps': steps}
     elif kind == 'normal':
-        spec['sampler'] = {'kind': 'normal', 'seed': ch.randint(0, 9999),
+        spec['sampler'] = {'kind': 'normal', 'seed': _seed(ch),
                            'loc': nom, 'scale': r(span / 3, 6)}
     else:
-        spec['sampler'] = {'kind': 'uniform', 'seed': ch.randint(0, 9999),
+        spec['sampler'] = {'kind': 'uniform', 'seed': _seed(ch),
                            'low': r(nom - span, 8), 'high': r(nom + span, 8)}
     return spec
 
